@@ -479,7 +479,11 @@ impl IoLoop {
         match event.token() {
             STREAM => {
                 if event.readiness().is_writable() {
-                    self.inner.write_to_stream(stream)?;
+                    let result = self.inner.write_to_stream(stream);
+                    if self.socket_failed_behind_server_close(state, &result) {
+                        return Ok(());
+                    }
+                    result?;
                 }
                 if event.readiness().is_readable() {
                     let result = self.inner.read_from_stream(
@@ -491,6 +495,9 @@ impl IoLoop {
                     // socket; the server may well close it right behind its CloseOk, so
                     // hitting EOF (or a reset) in the same pass is not an error.
                     if let ConnectionState::ClientClosed = state {
+                        return Ok(());
+                    }
+                    if self.socket_failed_behind_server_close(state, &result) {
                         return Ok(());
                     }
                     result?;
@@ -550,6 +557,24 @@ impl IoLoop {
                 Err(TryRecvError::Disconnected) => return EventLoopClientDroppedSnafu.fail(),
             };
             ch0_slot.blocked_tx = Some(tx);
+        }
+    }
+
+    // A broker that is going down sends Connection.Close and does not necessarily wait
+    // for our CloseOk. Once its Close has been seen, the socket ending (EOF, a reset, a
+    // failing write) is the expected sequel, not a new failure: what cannot be written any
+    // more is dropped, which ends the loop, and the server's close stays the reason.
+    fn socket_failed_behind_server_close(
+        &mut self,
+        state: &ConnectionState,
+        result: &Result<()>,
+    ) -> bool {
+        match (state, result) {
+            (ConnectionState::ServerClosing(_), Err(_)) => {
+                self.inner.outbuf.clear();
+                true
+            }
+            _ => false,
         }
     }
 
